@@ -132,6 +132,13 @@ def run_history(case, schedule):
                 in_loop[0] -= 1
         SNT._run = _run
         C.deque = S.make_deque(sc)
+        # every lock the library creates from now on is scheduler-aware too
+        # (a lock made behind the harness's back would block outside the
+        # scheduler's control)
+        saved_locks = {n: getattr(C, n) for n in ('RLock', 'Lock')
+                       if hasattr(C, n)}
+        for n in saved_locks:
+            setattr(C, n, lambda *a, **k: S.SchedRLock(sc))
         try:
             conn = C.Connection('localhost', 25565, username='u',
                                 allowed_versions={757},
@@ -271,6 +278,8 @@ def run_history(case, schedule):
             res['alive'] = sc.join_all(5.0)
         finally:
             C.deque = saved_deque
+            for n, v in saved_locks.items():
+                setattr(C, n, v)
             SNT._run = base_run
             world.scheduler = None
     res['decisions'] = sc.decisions
@@ -414,6 +423,11 @@ def check(ctx, case, schedule, r):
         ctx.label('s2_%s' % {True: 'ended', False: 'active',
                              None: 'transition'}[ended])
     for b in beh:
+        # (a user call that overlaps the callback's own connect may win the
+        # race: then the refusal is the correct answer)
+        if any(c['enter'] < b[2] and c['exit'] > b[1] for c in calls):
+            ctx.label('callback_reconnect_raced_with_user_call')
+            continue
         if b[3] == 'InvalidState':
             # may legitimately fail only if torn down; a plain InvalidState
             # from inside the connection's own callback after disconnect()
